@@ -192,9 +192,22 @@ impl std::os::unix::io::AsRawFd for OwnedRaw {
     }
 }
 
+/// fds that several `OwnedRaw` wrappers refer to at once (the history machine's shared eventfds): the wrappers do not
+/// close them, their owner does (`no_close_remove` + `close`). An fd number is in here only while it is open, so two
+/// worker threads never collide.
+static NO_CLOSE: std::sync::Mutex<Vec<RawFd>> = std::sync::Mutex::new(Vec::new());
+
+pub fn no_close_add(fd: RawFd) {
+    NO_CLOSE.lock().unwrap().push(fd);
+}
+
+pub fn no_close_remove(fd: RawFd) {
+    NO_CLOSE.lock().unwrap().retain(|f| *f != fd);
+}
+
 impl Drop for OwnedRaw {
     fn drop(&mut self) {
-        if self.0 >= 0 {
+        if self.0 >= 0 && !NO_CLOSE.lock().unwrap().contains(&self.0) {
             close(self.0);
         }
     }
